@@ -126,7 +126,7 @@ def run_session(rng, res: Result, idx):
             uid += 1
             body = "# id-%d-%d\r\n%s" % (idx, uid, rng.choice(
                 ["keep;\r\n", "stop;", 'OK "x"\r\nkeep;\r\n', "x" * rng.choice([10, 150, 390]),
-                 "été €\r\n"]))
+                 "été €\r\n", "# ff\x0c ls\u2028 nel\x85 end\r\nkeep;\r\n"]))
             args = (n1, body)
         elif op == "renamescript":
             args = (n1, n2)
